@@ -265,6 +265,15 @@ def check_mutator(ctx, m, exempt, helpers):
         if k != "write":
             return state
         if any(v in helpers for v in ev.get("via", ())):
+            if ev.get("hof") and ev.get("closure"):
+                # the helper was called from a closure handed to a combinator (`.map_err(|e| { self.restore_state(&log); e })`): the
+                # closure's call events are not on the path, its effects are — a store of the replay helper means the helper ran
+                # (to exhaustion: R12-replay-helper), i.e. the log of that field was replayed
+                hk = [v for v in ev.get("via", ()) if v in helpers][0]
+                roots = {x[1] for x in logged if x[0] == helpers[hk]["field"]}
+                if len(roots) == 1:
+                    logged = frozenset(x for x in logged if x[0] != helpers[hk]["field"])
+                return (dirty, logged, pend)
             return state  # the replay helper's own stores
         fld = self_field(ev)
         if fld is None:
@@ -367,10 +376,18 @@ def check_mutator(ctx, m, exempt, helpers):
                 elif len(defs) == 1 and defs[0][2] == "stmt" and defs[0][3].rv.k == "use" and defs[0][3].rv.ops[0].place is not None \
                         and len(defs[0][3].rv.ops[0].place.proj) == 1 and defs[0][3].rv.ops[0].place.proj[0]["k"] == "field":
                     # the backups are kept together in a tuple: `let backup = (a.clone(), b.clone()); .. let (x, y) = backup;`
+                    # (or in a struct: `let snap = Snapshot { a: self.a.clone(), .. }; .. self.a = snap.a;`, possibly handed on by move)
                     pl = defs[0][3].rv.ops[0].place
-                    tdefs = m.defs().get(pl.local, [])
                     k_ = pl.proj[0].get("i")
-                    if len(tdefs) == 1 and tdefs[0][2] == "stmt" and tdefs[0][3].rv.k == "aggregate" and tdefs[0][3].rv.j.get("ak") == "tuple" \
+                    holder = pl.local
+                    for _hop in range(4):
+                        tdefs = m.defs().get(holder, [])
+                        if len(tdefs) == 1 and tdefs[0][2] == "stmt" and tdefs[0][3].rv.k == "use" and tdefs[0][3].rv.ops[0].place is not None and tdefs[0][3].rv.ops[0].place.is_local():
+                            holder = tdefs[0][3].rv.ops[0].place.local
+                        else:
+                            break
+                    tdefs = m.defs().get(holder, [])
+                    if len(tdefs) == 1 and tdefs[0][2] == "stmt" and tdefs[0][3].rv.k == "aggregate" and tdefs[0][3].rv.j.get("ak") in ("tuple", "adt") \
                             and k_ is not None and k_ < len(tdefs[0][3].rv.ops) and tdefs[0][3].rv.ops[k_].place is not None and tdefs[0][3].rv.ops[k_].place.is_local():
                         l0 = tdefs[0][3].rv.ops[k_].place.local
                     else:
